@@ -694,6 +694,87 @@ func C13(r *vf.Run) {
 			r.MergeCells(cells)
 		})
 	}
+	if r.Phase("sparse-banks") {
+		// the scale of a dump against the scale of what is attached: a few tiny devices (a register file, a
+		// mailbox, a patch area of 16-512 bytes) alone in otherwise empty banks, and dumps that take in whole
+		// banks from outside them (64-330 KiB)
+		chunks := r.N(48, 1200)
+		r.Parallel(runtime.NumCPU(), chunks, func(w, ci int) {
+			g := r.Rand("sparse").Fork(uint64(ci))
+			cells := map[string]int64{}
+			for k := 0; k < 6 && !r.TooMany(); k++ {
+				b, _ := bus.New()
+				bank0 := uint32(1 + g.Intn(0xFA))
+				nb := 1 + g.Intn(3)
+				owner := map[uint32]int{} // 16-byte block -> device id
+				var hist []string
+				ndev := 1 + g.Intn(5)
+				onPageStart := false
+				for d := 1; d <= ndev; d++ {
+					size := uint32(16 << uint(g.Intn(6)))
+					off := uint32(g.Intn(0x10000)) &^ 15
+					if g.Intn(3) != 0 {
+						off = uint32(g.Intn(16))<<12 + uint32(16+16*g.Intn(200)) // away from the 4 KiB marks
+					}
+					st := (bank0+uint32(g.Intn(nb)))<<16 | off
+					if off+size > 0x10000 {
+						size = 0x10000 - off
+					}
+					if err := b.Attach(&fakeMem{id: d}, "tiny", st, st+size-1); err != nil {
+						continue
+					}
+					hist = append(hist, fmt.Sprintf("Attach(dev%d,$%06x,$%06x)", d, st, st+size-1))
+					for a := st; a < st+size; a += 16 {
+						owner[a>>4] = d
+						onPageStart = onPageStart || a&0xFFF == 0
+					}
+				}
+				for di := 0; di < 3; di++ {
+					start := bank0<<16 - uint32([]int{0, 1, 16, 0x1000, 0x8000, 0xFFFF}[g.Intn(6)])
+					end := (bank0+uint32(nb))<<16 - 1 + uint32([]int{0, 1, 15, 16, 0x1000, 0x10000}[g.Intn(6)])
+					if di == 2 {
+						start = bank0<<16 + uint32(g.Intn(0x100))
+					}
+					n := int(end - start + 1)
+					data, exp := make([]byte, n), make([]byte, n)
+					for i := range data {
+						a := start + uint32(i)
+						if d, ok := owner[a>>4]; ok {
+							exp[i] = fakeVal(d, a)
+							data[i] = ^exp[i]
+						} else {
+							exp[i] = byte(0xE0 + i%7)
+							data[i] = exp[i]
+						}
+					}
+					var got int
+					pan := vf.Try(func() { got = b.EaDump(start, end, data) })
+					r.Eval(1)
+					call := fmt.Sprintf("after %v: EaDump($%06x,$%06x) (%d bytes)", hist, start, end, n)
+					switch {
+					case pan != nil:
+						r.Fail("sparse-dump-panic", fmt.Sprintf("%s panicked: %v", call, pan), nil)
+					case got != n:
+						r.Fail("sparse-dump-count", fmt.Sprintf("%s returned %d", call, got), nil)
+					default:
+						if i := firstDiff(data, exp); i >= 0 && i < n {
+							what := "differs from a single read"
+							if _, ok := owner[(start+uint32(i))>>4]; !ok {
+								what = "position of an unattached address was modified"
+							}
+							r.Fail("sparse-dump-content", fmt.Sprintf("%s: data[%d] ($%06x) = %02x want %02x: %s", call, i, start+uint32(i), data[i], exp[i], what), nil)
+						}
+					}
+				}
+				if onPageStart {
+					cells["sparse:device-on-a-4k-mark"]++
+				} else {
+					cells["sparse:no-device-on-a-4k-mark"]++
+				}
+			}
+			r.MergeCells(cells)
+		})
+	}
 	if r.Phase("long-lived-bus") {
 		// one bus that keeps being re-attached for its whole life (a host swapping handlers every
 		// frame): tens of thousands of successful Attach calls, routing checked after every one
@@ -815,7 +896,7 @@ func C13(r *vf.Run) {
 	if r.OnlyPhase == "" {
 		r.Require("long:attach-count-65536")
 		r.Require("long:attach-count-65537")
-		for _, c := range []string{"seq:read24", "seq:write", "attach:nested", "attach:wide", "attach:nested-in-wide", "attach:reattach-same", "attach:adjacent-after", "attach:overlap-tail", "dump-boundary:mem>mem", "dump-boundary:mem>hole", "dump-boundary:hole>mem", "dump-buffer-ends-inside-trailing-hole"} {
+		for _, c := range []string{"seq:read24", "seq:write", "attach:nested", "attach:wide", "attach:nested-in-wide", "attach:reattach-same", "attach:adjacent-after", "attach:overlap-tail", "dump-boundary:mem>mem", "dump-boundary:mem>hole", "dump-boundary:hole>mem", "dump-buffer-ends-inside-trailing-hole", "sparse:no-device-on-a-4k-mark"} {
 			r.Require(c)
 		}
 	}
